@@ -138,7 +138,8 @@ Section MarketLift.
 Variable I : market -> list record -> Prop.
 Hypothesis I_step : forall m rs o m' recs,
   life_ok m -> gone_mkt m -> I m rs -> valid_op o -> step_rec m o = Ok (m', recs) -> I m' (rs ++ recs).
-Hypothesis I_fund : forall m rs f, length f = length (m_fund m) -> I m rs -> I (m <| m_fund := f |>) rs.
+(* a fundamental-price shock: the value recorded for the CURRENT time is replaced *)
+Hypothesis I_fund : forall m rs v, I m rs -> I (m <| m_fund := upd (m_fund m) (zi (m_time m)) (Some v) |>) rs.
 
 Definition mok (s : sim) (x : mkt) : Prop := gone_mkt (mk_m x) /\ I (mk_m x) (recs_of (m_id (mk_m x)) s).
 Definition minv (s : sim) : Prop := NoDup (mids s) /\ Forall (mok s) (s_markets s).
@@ -192,17 +193,17 @@ Lemma minv_update s s' mkid x m' recs :
   s_markets s' = upd_mkt mkid (fun y => y <| mk_m := m' |>) (s_markets s) ->
   truths (s_trace s') = rev recs ++ truths (s_trace s) ->
   find_mkt mkid (s_markets s) = Some x ->
-  ((exists o, valid_op o /\ step_rec (mk_m x) o = Ok (m', recs)) \/ (recs = [] /\ exists f, length f = length (m_fund (mk_m x)) /\ m' = (mk_m x) <| m_fund := f |>)) ->
+  ((exists o, valid_op o /\ step_rec (mk_m x) o = Ok (m', recs)) \/ (recs = [] /\ exists v, m' = (mk_m x) <| m_fund := upd (m_fund (mk_m x)) (zi (m_time (mk_m x))) (Some v) |>)) ->
   books_ok s -> minv s -> minv s'.
 Proof.
   intros Em Et Fx Hop B [N M]. pose proof (find_mkt_id _ _ _ Fx) as Ex. pose proof (books_find _ _ _ B Fx) as L.
   assert (Mx : mok s x). { rewrite Forall_forall in M. apply M. eapply find_mkt_In''; eauto. }
   destruct Mx as [Gx Ix].
   assert (Hm' : m_id m' = mkid /\ gone_mkt m' /\ Forall (fun r => rec_mkt r = mkid) recs /\ I m' (recs_of mkid s ++ recs)).
-  { destruct Hop as [[o [Vo So]]|[-> [f [Lf ->]]]].
+  { destruct Hop as [[o [Vo So]]|[-> [v ->]]].
     - destruct (step_rec_mkt _ _ _ _ (proj1 L) Gx So) as [R [G' Ei]]. rewrite Ex in *.
       split; [exact Ei|]. split; [exact G'|]. split; [exact R|]. exact (I_step _ _ _ _ _ L Gx Ix Vo So).
-    - split; [exact Ex|]. split; [exact Gx|]. split; [constructor|]. rewrite app_nil_r. apply I_fund; [exact Lf|]. rewrite <- Ex. exact Ix. }
+    - split; [exact Ex|]. split; [exact Gx|]. split; [constructor|]. rewrite app_nil_r. apply I_fund. rewrite <- Ex. exact Ix. }
   destruct Hm' as [Ei [G' [R Im']]].
   assert (Rec : forall i, recs_of i s' = recs_of i s ++ of_mkt i recs).
   { intros i. unfold recs_of. rewrite Et, rev_app_distr, rev_involutive, of_mkt_app. reflexivity. }
@@ -226,7 +227,7 @@ Lemma lifted_update s s' mkid x m' recs :
   (no_truth (s_pending s) -> no_truth (s_pending s')) ->
   find_mkt mkid (s_markets s) = Some x ->
   (sound s -> sound s') ->
-  (valid_tr s' -> (exists o, valid_op o /\ step_rec (mk_m x) o = Ok (m', recs)) \/ (recs = [] /\ exists f, length f = length (m_fund (mk_m x)) /\ m' = (mk_m x) <| m_fund := f |>)) ->
+  (valid_tr s' -> (exists o, valid_op o /\ step_rec (mk_m x) o = Ok (m', recs)) \/ (recs = [] /\ exists v, m' = (mk_m x) <| m_fund := upd (m_fund (mk_m x)) (zi (m_time (mk_m x))) (Some v) |>)) ->
   lifted s -> lifted s'.
 Proof.
   intros Em Et Hp Fx Hs Hop.
@@ -397,7 +398,7 @@ Proof.
   - exact Fx.
   - intros H V. destruct (H V) as [B N]. split; [|exact N]. apply books_set_market; auto.
     intros y Fy. rewrite Fx in Fy. inversion Fy; subst y. apply life_ok_fund. eapply books_find; eauto.
-  - intros _. right. split; [reflexivity|]. eexists. split; [|reflexivity]. apply upd_length.
+  - intros _. right. split; [reflexivity|]. eexists. reflexivity.
 Qed.
 Lemma ML_set_cur : forall s sid, lifted s -> lifted (s <| s_cur := sid |>).
 Proof. intros s sid. apply lifted_same; reflexivity. Qed.
@@ -413,6 +414,26 @@ Proof.
       rewrite Forall_forall in M. destruct (M _ Hx) as [G Ix]. unfold books_ok in B. rewrite Forall_forall in B.
       unfold mok. cbn. split; [exact G|].
       pose proof (I_step (mk_m x) _ (ORun (cur_switch s)) _ [] (B _ Hx) G Ix Logic.I eq_refl) as H. rewrite app_nil_r in H. exact H.
+Qed.
+
+Lemma ML_probe : forall s ev k before mkid extra, lifted s -> lifted (emit s (ev_probe s ev k before mkid extra)).
+Proof. intros. apply lifted_emit; [reflexivity|assumption]. Qed.
+
+(* the same invariant through a request, any number of steps, a session - from ANY state that satisfies it *)
+Lemma handle_request_lifted s r : lifted s -> lifted (handle_request s r).
+Proof.
+  apply (handle_request_k lifted ML_fail ML_fail_exec (fun s ev k b m x _ => ML_probe s ev k b m x) ML_callback
+           ML_accept_order ML_accept_cancel ML_round ML_fills ML_spent ML_halt_after).
+Qed.
+Lemma iterate_lifted n s : lifted s -> lifted (iterate n s).
+Proof.
+  apply (iterate_k lifted ML_fail (fun s ev k b m x _ => ML_probe s ev k b m x) ML_step ML_tick_all ML_pop_perm ML_pop_draw ML_consult
+           ML_halt_before ML_shock handle_request_lifted).
+Qed.
+Lemma run_session_lifted s se : lifted s -> lifted (run_session s se).
+Proof.
+  apply (run_session_k lifted ML_fail (fun s ev k b m x _ => ML_probe s ev k b m x) ML_step ML_boundary ML_tick_all ML_pop_perm ML_pop_draw
+           ML_consult ML_halt_before ML_shock ML_set_cur ML_begin_iteration handle_request_lifted).
 Qed.
 
 Theorem run_lifted c tape batches funds :
@@ -448,8 +469,8 @@ End MarketLift.
 Lemma rest_vol_fund m f i : rest_vol (m <| m_fund := f |>) i = rest_vol m i.
 Proof. reflexivity. Qed.
 
-Lemma acct_fund m rs f : length f = length (m_fund m) -> acct m rs -> acct (m <| m_fund := f |>) rs.
-Proof. intros _ [L Eq Rs Gn Fr]. constructor; auto. Qed.
+Lemma acct_fund m rs v : acct m rs -> acct (m <| m_fund := upd (m_fund m) (zi (m_time m)) (Some v) |>) rs.
+Proof. intros [L Eq Rs Gn Fr]. constructor; auto. Qed.
 
 Theorem nothing_lost_in_every_run c tape batches funds :
   NoDup (map mc_id (c_markets c)) ->
@@ -488,6 +509,6 @@ Proof.
   intros N s V x Hx.
   exact (market_invariant_of_every_run (fun m _ => MarketPrice.store_ok m)
            (fun m rs o m' recs _ _ H _ E => MarketPrice.step_rec_store_ok m o m' recs H E)
-           (fun m rs f Lf H => store_ok_fund m f Lf H)
+           (fun m rs v H => store_ok_fund m _ (upd_length _ _ _) H)
            c tape batches funds N (fun mc _ => MarketPrice.store_ok_init (mc_id mc) (mc_tick mc) (mc_mp0 mc)) V x Hx).
 Qed.
